@@ -27,8 +27,10 @@ from pathlib import Path
 import numpy as np
 
 ROOT = Path(__file__).resolve().parents[1]
-EVIDENCE = ROOT / 'evidence'
-REPLAYS = ROOT / 'replays'
+TREE = os.environ.get('GVMC_TREE', '/repo').rstrip('/')
+_OUT = Path(os.environ.get('GVMC_OUT', '/tmp/gvmc-out')) if TREE != '/repo' else ROOT
+EVIDENCE = _OUT / 'evidence'
+REPLAYS = _OUT / 'replays'
 FINDINGS = ROOT / 'known_findings.json'
 
 MAX_VIOLS_KEPT = 12
@@ -145,8 +147,8 @@ def assert_repo_under_test():
     import gemdat
 
     f = str(Path(gemdat.__file__).resolve())
-    if not f.startswith('/repo/src/'):
-        raise HarnessError(f'gemdat imported from {f}, not from /repo/src')
+    if not f.startswith(TREE + '/src/'):
+        raise HarnessError(f'gemdat imported from {f}, not from {TREE}/src')
     return f
 
 
@@ -222,7 +224,7 @@ def report(mod, total: Result, tier, seed, wall, n_shards, done, cap_hit) -> int
         print(f'KNOWN-FINDING: property={mod.ID} {kind}: {open_kinds[kind]["what"]} ({n} cases this run)')
 
     rc = 0
-    REPLAYS.mkdir(exist_ok=True)
+    REPLAYS.mkdir(parents=True, exist_ok=True)
     written = set()
     for v in total.viols:
         if v['kind'] in open_kinds or v['kind'] in written:
@@ -277,7 +279,7 @@ def report(mod, total: Result, tier, seed, wall, n_shards, done, cap_hit) -> int
         'wall_s': round(wall, 2),
         'violations': int(sum(n for k, n in total.viol_kinds.items() if k not in open_kinds)),
     }
-    EVIDENCE.mkdir(exist_ok=True)
+    EVIDENCE.mkdir(parents=True, exist_ok=True)
     (EVIDENCE / f'{mod.ID}.json').write_text(json.dumps(ev, indent=1))
     print(
         f'{mod.ID} tier={tier} seed={seed} evals={total.evals} distinct_outcomes={distinct} '
